@@ -265,6 +265,10 @@ void exec_op(World& w, const Op& op) {
       Error err = a.query(Out(q), reinterpret_cast<void*>(p));
       SIM_CHECK(err != Error::kOk, "c09:stale-pointer-accepted", "query(%#zx) of a released span start succeeded (size %zu)", size_t(p), q.size());
       sim::count("c09.probe.query_released");
+      // releasing it a second time must be refused as well (it would free whatever follows up to the next span end)
+      err = a.release(reinterpret_cast<void*>(p));
+      SIM_CHECK(err != Error::kOk, "c09:stale-pointer-accepted", "release(%#zx) of an already released span start succeeded", size_t(p));
+      w.model.check_statistics(a.statistics(), "after a refused double release");
       break;
     }
     case kWrite: {
@@ -290,14 +294,24 @@ void exec_op(World& w, const Op& op) {
       jitmodel::SpanInfo& info = w.model.live[h.rx];
       uint8_t junk[64]; memset(junk, 0xEE, sizeof junk);
       Error err;
-      switch (uint64_t(op.a[1]) % 5) {
+      switch (uint64_t(op.a[1]) % 9) {
+        case 5: { JitAllocator::Span c = h.span; err = a.shrink(c, info.size + 1); break; }                      // "shrinking" to a larger size
+        case 6: { JitAllocator::Span c = h.span; err = a.shrink(c, SIZE_MAX - size_t(uint64_t(op.a[2]) % 256)); break; }   // size conversions must not wrap
+        case 7: { JitAllocator::Span c = h.span; err = a.shrink(c, (size_t(1) << 38) + 64); break; }
+        case 8: {                                                                                                // a pointer into the middle of the span is not an allocation
+          // (with multiple pools the span's pool may use up to four times the base granularity: stay clear of its first area)
+          size_t gran = size_t(w.model.cfg.granularity) * 4;
+          if (info.size < 2 * gran) { err = make_error(Error::kInvalidArgument); break; }
+          err = a.release(reinterpret_cast<void*>(h.rx + gran * (1 + size_t(uint64_t(op.a[2]) % (info.size / gran - 1)))));
+          break;
+        }
         case 0: err = a.write(h.span, info.size + 1, junk, 1); break;              // offset past the end
         case 1: err = a.write(h.span, info.size - 8, junk, 16); break;             // range crosses the end
         case 2: err = a.write(h.span, SIZE_MAX - 7, junk, 16); break;              // offset + size wraps around to a small value
         case 3: err = a.write(h.span, SIZE_MAX - size_t(uint64_t(op.a[2]) % 64), junk, 1 + size_t(uint64_t(op.a[2]) % 64)); break;   // wraps to exactly 0
         default: err = a.write(h.span, size_t(uint64_t(op.a[2]) % info.size), junk, SIZE_MAX - 3); break;   // huge size
       }
-      SIM_CHECK(err != Error::kOk, "c09:bad-write-accepted", "write() outside the span succeeded");
+      SIM_CHECK(err != Error::kOk, "c09:bad-write-accepted", "a write() outside the span, a shrink() to a larger size or a release() of an interior pointer succeeded (variant %llu)", (unsigned long long)(uint64_t(op.a[1]) % 9));
       jitmodel::check_stamp(info, w.model.cfg.granularity, "c09", "after rejected write");
       check_neighbours(w, h.rx, "after rejected write");
       break;
